@@ -29,6 +29,10 @@ CHECKS = {
    text="Production-wired claim reconciler (captured from the real offered reconciler; CSA and SSA syncers) over sim: every API-call index of every claim reconcile x 6 fault outcomes + retries; claim reads served from a cache lagging 1..12 writes; seeded interleavings at API-call granularity with the XR reconciler, a same-named claim in another namespace and user deletion; statically referenced foreign-bound XRs. Invariants (<=1 XR per claim, XR created only under the name already stored on the claim, no write to a foreign-bound XR) checked by a post-write hook on every store state.",
    note="Trusted: " + SIM + " incl. resourceVersion conflicts and the lagging-reader view; never two concurrent reconciles of one claim; random-suffix name collisions out of scope.",
    technique="runtime monitoring: post-write invariant hook + fault enumeration + scheduled interleavings", ref="3/C06"),
+ "C07": dict(cat="exploration",
+   text="Production-wired claim reconciler (both syncers) syncs thousands of generated claims and XR pre-states twice (first sync, re-sync after a user edit and an XR status change) over sim; the stored XR and claim are compared field by field with a partition written from the property statement (claim->XR, never claim->XR, preserved on XR, XR->claim, never XR->claim). CSA merge-back of XR spec fields into the claim is recorded as known findings; everything else must be silent.",
+   note="Trusted: the partition table in c07/main.go (written from the statement), sim SSA via k8s managedfields; the XRD preserves unknown fields so no pruning model is needed; removal of fields deleted on the other side is not required (superset semantics for nested maps).",
+   technique="runtime monitoring: generated object pairs against a reference field partition", ref="3/C07"),
  "C11": dict(cat="exploration",
    text="Real xcrd.ForCompositeResource/ForCompositeResourceClaim, XRD Validate/ValidateUpdate and the real XRD admission webhook (over sim) run on thousands of generated XRDs and (old,new) pairs; outputs compared with an independent oracle and golden machinery schemas. Held on the generated inputs.",
    note="Trusted: golden/machinery_*.json (reviewed dump of the machinery schema); the generator's schema grammar; sim accepts any CRD body on dry-run so webhook denials come only from Crossplane's validation.",
